@@ -38,11 +38,11 @@ CONSTS = [0, 1, -7, 2.5, -0.001, 1e300, 1e-300, True, False, datetime.datetime(2
           datetime.timedelta(days=1, seconds=5), 123456789012]
 
 
-ARGFORMS = ['-1', '+2', '(A2)', 'A1%', '-B1', '"x"', '"a*"', 'A1+1', 'SUM(A1:A2)', 'TRUE', '1.5', '""', 'A1', '-A1%', '(1+2)*3', '">"&A1', 'Other!A1', 'C9', '1=1', '2*-3']
+ARGFORMS = ['-1', '+2', '(A2)', 'A1%', '-B1', '"x"', '"a*"', 'A1+1', 'SUM(A1:A2)', 'TRUE', '1.5', '""', 'A1', '-A1%', '(1+2)*3', '">"&A1', 'Other!A1', 'C9', '1=1', '2*-3', 'B:B', 'A1:A2', 'ZZZZ1', 'Other!A:A', 'A1:B']
 ARGTEMPLATES = ['=SUMIF(A1:A2,{x},B1:B2)', '=SUMIF(A1:A2,{x})', '=COUNTIFS(A1:A2,{x})', '=SUMIFS(B1:B2,A1:A2,{x})', '=AVERAGEIFS(B1:B2,A1:A2,{x})', '=IF({x},1,2)',
                 '=IF(1,{x},2)', '=ROUND({x},1)', '=ROUND(2.5,{x})', '=LEFT("abc",{x})', '=MID("abcdef",{x},2)', '=VLOOKUP({x},A1:B2,2,0)', '=INDEX(A1:B2,{x},1)',
                 '=MATCH({x},A1:A2,0)', '=SUM({x},1)', '=MAX({x},A1)', '=IFERROR({x},0)', '=DATE(2020,{x},1)', '=AND({x},TRUE)', '=CONCATENATE({x},"z")',
-                '=EDATE(DATE(2020,1,31),{x})', '=XMATCH({x},A1:A2)', '=SEARCH({x},"abc")', '=RIGHT("abc",{x})', '=VALUE({x})', '=YEAR({x})', '=IFS({x},1,TRUE,2)',
+                '=EDATE(DATE(2020,1,31),{x})', '=XMATCH({x},A1:A2)', '=SEARCH({x},"abc")', '=RIGHT("abc",{x})', '=VALUE({x})', '=YEAR({x})', '=IFS({x},1,TRUE,2)', '=SUMIF(A1:A2,">0",{x})', '=COLUMN({x})', '=VLOOKUP(1,{x},1,0)', '=INDEX({x},1,1)', '=COUNTBLANK({x})',
                 '=ROUNDUP({x},0)', '=MIN({x})', '=COUNT({x},A1:A2)', '=DATEDIF(DATE(2020,1,1),DATE(2021,1,1),{x})', '={x}', '=-({x})', '=({x})&"t"', '={x}<3']
 
 
